@@ -100,7 +100,9 @@ class Bench:
         self.max_cycles = max_cycles
         self.tail = tail
         self.cycle = {d: 0 for d in self.domains}
+        self.last_event = 0
         self.stop = False
+        self.stop_on_violation = False   # online monitors record the first violation; history oracles need the full run
         self.timed_out = False
         self.quiet_since = None
         self.stats = {}
@@ -131,10 +133,12 @@ class Bench:
     def violate(self, cls, observable, msg):
         if self.violation is None:
             self.violation = Violation(cls, observable, msg, cycle=self.cycle[self.domains[0]])
-        self.stop = True
+        if self.stop_on_violation:
+            self.stop = True
 
     def event(self, *ev):
         self.log.append(ev)
+        self.last_event = self.cycle[self.domains[0]]
 
     # -- coordinator -----------------------------------------------------------------------------
     def _coord(self, cd, main):
